@@ -27,6 +27,7 @@ from pyqasm.analyzer import Qasm3Analyzer
 from pyqasm.elements import Variable
 from pyqasm.exceptions import raise_qasm3_error
 from pyqasm.expressions import Qasm3ExprEvaluator
+from pyqasm.maps import CONSTANTS_MAP
 from pyqasm.transformer import Qasm3Transformer
 from pyqasm.validator import Qasm3Validator
 
@@ -113,7 +114,8 @@ class Qasm3SubroutineProcessor:
         # 1. variable mapping is equivalent to declaring the variable
         #     with the formal argument name and doing classical assignment
         #     in the scope of the function
-        if actual_arg_name:  # actual arg is a variable not literal
+        if actual_arg_name and actual_arg_name not in CONSTANTS_MAP:
+            # actual arg is a variable, not a literal or a built-in constant (pi, tau, euler)
             if actual_arg_name in cls.visitor_obj._global_qreg_size_map:
                 raise_qasm3_error(
                     f"Expecting classical argument for '{formal_arg.name.name}'. "
